@@ -1571,6 +1571,12 @@ static void emit_data(Obj *prog) {
     if (var->is_function || !var->is_definition)
       continue;
 
+    // A static local object of a function that is not emitted has no
+    // user, and its initializer may refer to functions that are not
+    // emitted either.
+    if (var->owner && !var->owner->is_live)
+      continue;
+
     if (var->is_static)
       println("  .local %s", var->name);
     else
